@@ -181,6 +181,13 @@ def _convert_config_to_connection_obj(config) -> Connection:
 
         elif key == "APPLICATIONS":
             if value:
+                if not isinstance(value, list) or \
+                        not all(isinstance(app, dict) for app in value):
+                    raise InvalidConfigValue(f"Invalid config value "\
+                                             f"'{value}' found for config "\
+                                             f"key '{key}'. It MUST be a "\
+                                             f"list of dictionaries")
+
                 for app in value:
                     app_keys = app.keys()
                     if not [key for key in app_keys if key in ["vendor_id", "app_id"]]:
@@ -286,9 +293,9 @@ def _convert_file_to_config(filepath: str = None, variables_dictionary: dict = g
         raise
 
     configs = list()
-    transport_type = "tcp"
 
     for spec in from_config_file["spec"]:
+        transport_type = "tcp"
         for application in spec["applications"]:
             vendor_id = application["vendor_id"]
             app_id = application["app_id"]
